@@ -105,6 +105,21 @@ pub fn check_variant(kind: &str, idx: usize, variant: &[u8], o: &Original, rep: 
                     .and_then(|u| u.verify(o.root_pub).map_err(|e| format!("{e:?}")))
             }),
         ),
+        // the deprecated readers relax the FORMAT of third-party signatures of version-0 blocks,
+        // not the chain: no token of these cases is in the legacy format, so they must accept
+        // exactly what the other entry points accept
+        (
+            "unsafe_deprecated_deserialize",
+            guard(|| Biscuit::unsafe_deprecated_deserialize(variant, o.root_pub).map_err(|e| format!("{e:?}"))),
+        ),
+        (
+            "unverified.unsafe_deprecated_deserialize.verify",
+            guard(|| {
+                UnverifiedBiscuit::unsafe_deprecated_deserialize(variant)
+                    .map_err(|e| format!("{e:?}"))
+                    .and_then(|u| u.verify(o.root_pub).map_err(|e| format!("{e:?}")))
+            }),
+        ),
     ];
     let mut accepted_any = false;
     for (entry, r) in results {
